@@ -64,8 +64,9 @@ class Pair:
         self.B.set_status(-new_tick, price, liq, vb, vq)
         self.A.price = self.B.price = price
         self.A.tick, self.B.tick = new_tick, -new_tick
-        self.A.market.update()
-        self.B.market.update()
+        with U.guard("set_market_status/update"):
+            self.A.market.update()
+            self.B.market.update()
 
 
 def mirror_op(op):
@@ -164,11 +165,31 @@ def gen_op(rng, P):
         if k < 0.9:
             return c - a - b, c - a, "above"
         return (c, c + b, "on-lower") if rng.random() < 0.5 else (c - a, c, "on-upper")
+
+    def raw(t):
+        """a raw (unaligned) tick for an entry point that trims: aligned, exactly half way between two usable ticks (the rounding tie:
+        half-even is symmetric under negation, other tie rules are not), or anywhere in the cell"""
+        k = rng.random()
+        return t if k < 0.4 else (t + rng.choice((-1, 1)) * (sp // 2) if k < 0.75 else t + rng.randint(-sp + 1, sp - 1))
+
+    def exec_price():
+        """an explicit execution price: `tick=` (raw tick, either sign, never ±1: see sentinel_stream) or `sqrt_price_x96=` (of a tick)"""
+        k = rng.random()
+        if k < 0.7:
+            return {}
+        t = w.tick + rng.randint(-4 * sp, 4 * sp)
+        if abs(t) <= 1:
+            t = 2 * sp
+        return {"tick": t} if k < 0.88 else {"sqrt_tick": t}
     r = rng.random()
     if r < 0.22 or not keys:
         lo, up, reg = rng_range()
-        return {"op": "add_by_tick", "lower": lo, "upper": up, "base": bb * Decimal(rng.choice(("0.1", "0.3", "0.6"))),
-                "quote": qb * Decimal(rng.choice(("0.1", "0.3", "0.6"))), "sqrt": None, "tick": None, "trim": True}, reg
+        op = {"op": "add_by_tick", "lower": raw(lo), "upper": raw(up), "base": bb * Decimal(rng.choice(("0.1", "0.3", "0.6"))),
+              "quote": qb * Decimal(rng.choice(("0.1", "0.3", "0.6"))), "sqrt": None, "tick": None, "trim": True}
+        op.update(exec_price())
+        return op, reg + ("" if op["tick"] is None and "sqrt_tick" not in op else ":exec-price") + \
+            (":raw" if (op["lower"] % sp or op["upper"] % sp) else "") + \
+            (":tie" if (op["lower"] % sp == sp // 2 or op["upper"] % sp == sp // 2) else "")
     if r < 0.32:
         lo, up, reg = rng_range()
         # prices in the inner part of a spacing cell
@@ -179,7 +200,11 @@ def gen_op(rng, P):
     reg = "below" if w.tick < k.lower_tick else ("above" if w.tick >= k.upper_tick else "inside")
     if r < 0.45:
         frac = rng.choice((None, Fraction(1, 2), Fraction(1, 3)))
-        return {"op": "remove", "lower": k.lower_tick, "upper": k.upper_tick, "liq": frac, "collect": rng.random() < 0.5, "sqrt": None, "remove_dry": True}, reg
+        op = {"op": "remove", "lower": k.lower_tick, "upper": k.upper_tick, "liq": frac, "collect": rng.random() < 0.5, "sqrt": None, "remove_dry": True}
+        if rng.random() < 0.15:
+            op["sqrt_tick"] = w.tick + rng.randint(-4 * sp, 4 * sp)      # remove_liquidity(sqrt_price_x96=...), as Squeeth calls it
+            reg += ":exec-price"
+        return op, reg
     if r < 0.52:
         return {"op": "collect", "lower": k.lower_tick, "upper": k.upper_tick, "max0": rng.choice((None, Decimal("0.01"))),
                 "max1": rng.choice((None, Decimal("0.01"))), "remove_dry": True, "to_user": True}, reg
@@ -195,7 +220,9 @@ def gen_op(rng, P):
         return {"op": "even_rebalance", "price": None}, "-"
     if r < 0.9:
         lo, up, reg = rng_range()
-        return {"op": "add_by_value", "lower": lo, "upper": up, "value": (qb + bb * w.price) * Decimal(rng.choice(("0.1", "0.4", "0.8"))), "trim": True}, reg
+        lo, up = raw(lo), raw(up)
+        return {"op": "add_by_value", "lower": lo, "upper": up, "value": (qb + bb * w.price) * Decimal(rng.choice(("0.1", "0.4", "0.8"))), "trim": True}, \
+            reg + (":raw" if (lo % sp or up % sp) else "")
     return {"op": "bar", "tick": w.tick + rng.randint(-80, 80) * sp // 2}, "-"
 
 
@@ -213,8 +240,12 @@ def regime_flip(P, op):
     reciprocity error of ~1e-17, and get_liquidity is ill-conditioned there (amount / (s - sqrt_bound))"""
     if "lower" not in op or "upper" not in op or op["op"] in ("collect",):
         return False
+    lo, up = op["lower"], op["upper"]
+    if op.get("trim"):
+        from demeter.uniswap.helper import nearest_usable_tick
+        lo, up = sorted((nearest_usable_tick(lo, P.sp), nearest_usable_tick(up, P.sp)))
     try:
-        return near_bound(P.A, op["lower"], op["upper"]) or near_bound(P.B, -op["upper"], -op["lower"])
+        return near_bound(P.A, lo, up) or near_bound(P.B, -up, -lo)
     except AssertionError:
         return False
 
@@ -236,6 +267,9 @@ def apply_both(P, op):
         lb = P.B.market.positions.get(PositionInfo(ob["lower"], ob["upper"]))
         oa["liq"] = int(Fraction(la.liquidity) * op["liq"]) if la else 1
         ob["liq"] = int(Fraction(lb.liquidity) * op["liq"]) if lb else 1
+    if op.get("sqrt_tick") is not None:
+        from demeter.uniswap.liquitidy_math import get_sqrt_ratio_at_tick
+        oa["sqrt"], ob["sqrt"] = get_sqrt_ratio_at_tick(op["sqrt_tick"]), get_sqrt_ratio_at_tick(-op["sqrt_tick"])
     ra, rb = U.apply_op(P.A, oa), U.apply_op(P.B, ob)
     return ra, rb
 
@@ -248,13 +282,15 @@ def view_req(w, name, value, l, u, impl, rep):
     from demeter.uniswap.liquitidy_math import estimate_ratio
     pool = w.pool
     price = w.market.market_status.data.price
-    tr = base_unit_price_to_real_tick(price, pool.token0.decimal, pool.token1.decimal, pool.is_token0_quote)
-    try:
-        ra = Decimal(estimate_ratio(tr, l, u) * 10 ** (pool.token1.decimal - pool.token0.decimal))
-    except Exception:  # noqa: BLE001
-        ra = Decimal(0)
-    sq = base_unit_price_to_sqrt_price_x96(price, pool.token0.decimal, pool.token1.decimal, pool.is_token0_quote)
-    est = _sqrt_price_to_tick(_from_x96(sq)) if sq > 0 else 0
+    with U.guard("base_unit_price_to_real_tick/estimate_ratio/base_unit_price_to_sqrt_price_x96",
+                 {"world": U.world_spec(w), "ops": [{"op": name, "value": fmt(value), "lower": l, "upper": u}]}):
+        tr = base_unit_price_to_real_tick(price, pool.token0.decimal, pool.token1.decimal, pool.is_token0_quote)
+        try:
+            ra = Decimal(estimate_ratio(tr, l, u) * 10 ** (pool.token1.decimal - pool.token0.decimal))
+        except Exception:  # noqa: BLE001
+            ra = Decimal(0)
+        sq = base_unit_price_to_sqrt_price_x96(price, pool.token0.decimal, pool.token1.decimal, pool.is_token0_quote)
+        est = _sqrt_price_to_tick(_from_x96(sq)) if sq > 0 else 0
     fn = {"estimate_amount": "uni.estimateAmount", "estimate_liquidity": "uni.estimateLiquidity"}[name]
     return ({"fn": fn, "pool": U.pool_json(pool), "state": w.dump(), "value": fmt(value), "lower": str(l), "upper": str(u),
              "tick_real": fmt(Fraction(tr)), "ratio_amt": fmt(Fraction(ra)), "est": str(est)}, impl, rep)
@@ -281,12 +317,14 @@ def estimates(ctx, P, rng, rep, reg_tag):
     for name in ("estimate_liquidity", "estimate_amount"):
         res = []
         for w, (l, u) in ((P.A, (lo, up)), (P.B, (-up, -lo))):
+            U.GUARDED[0] += 1
             try:
-                if name == "estimate_amount":
-                    t0, t1 = w.market.estimate_amount(value, l, u)
-                    liq = None
-                else:
-                    liq, t0, t1 = w.market.estimate_liquidity(value, PositionInfo(l, u))
+                with U.guard(name, {"world": U.world_spec(w), "ops": [{"op": name, "value": fmt(value), "lower": l, "upper": u}]}):
+                    if name == "estimate_amount":
+                        t0, t1 = w.market.estimate_amount(value, l, u)
+                        liq = None
+                    else:
+                        liq, t0, t1 = w.market.estimate_liquidity(value, PositionInfo(l, u))
                 base, quote = (t1, t0) if w.pool.is_token0_quote else (t0, t1)
                 res.append((None, liq, Fraction(base), Fraction(quote)))
                 impl = ([str(int(liq))] if liq is not None else []) + [U.num(Decimal(t0)), U.num(Decimal(t1))]
@@ -377,7 +415,9 @@ def run_sequence(ctx, rng, n_ops, spec=None):
                     return
         ctx.case(f"{op['op']}:{reg}:{P.dq}/{P.db}:{P.fee}:{outcome}", rep if len(rep["ops"]) <= 2 else None)
         tol = TOL_EST if any(o["op"] == "add_by_value" for o in rep["ops"]) else max(TOL, liq_granularity(P))
-        if not compare_obs(ctx, P, observe(P.A, False), observe(P.B, True), f"state-after.{op['op']}", rep, tol):
+        with U.guard("get_market_balance/get_position_status", {"world": U.world_spec(P.A), "ops": []}):
+            oa, ob = observe(P.A, False), observe(P.B, True)
+        if not compare_obs(ctx, P, oa, ob, f"state-after.{op['op']}", rep, tol):
             return
         if rng.random() < 0.35:
             estimates(ctx, P, rng, rep, reg)
@@ -423,10 +463,13 @@ def run(ctx: Ctx):
                 ctx.disagree(f"{req['fn']} ({'token0=quote' if req['pool']['q0'] else 'mirror'}): {d}", rep)
             ctx.count("views_checked_against_model")
     DRV.clear()
+    U.report_process_state(ctx)
 
 
 def replay(ctx: Ctx, case) -> bool:
     import random
+    if isinstance(case, dict) and case.get("kind") == "process-state":
+        return U.replay_process_state(case)
     sub = Ctx(ctx.prop, ctx.tier, ctx.seed, False)
     U.cap_violations(sub)
     rng = random.Random(3)
